@@ -935,9 +935,22 @@ func (c *checker) prefixTie(file string, content []byte, lens []int) {
 			c.r.Violate("prefix-load-differs-from-model", "correspondence",
 				fmt.Sprintf("%s cut to %d of %d bytes: implementation %s, model %s", file, cp.k, len(content), impl, model), rc)
 		}
+		if file == ticketFile && !cp.rep.OK {
+			c.r.Violate("ticket-store-blocks-startup", "impl-oracle",
+				fmt.Sprintf("%s cut to %d of %d bytes (a torn checkpoint): the ScrambleSuit ClientFactory fails: %s", file, cp.k, len(content), cp.rep.Err), rc)
+		}
 		if file == stateFile && cp.k < len(content) && cp.rep.OK {
-			c.r.Violate("truncated-state-file-accepted", "impl-oracle",
-				fmt.Sprintf("%s cut to %d of %d bytes is accepted and presents cert=%s", file, cp.k, len(content), cp.rep.Cert), rc)
+			orig := ""
+			if r := completeRec(content); r != nil {
+				orig = r.presented().Cert
+			}
+			sig := "truncated-state-file-accepted"
+			if cp.rep.Cert != orig {
+				sig = "identity-silently-replaced-over-unreadable-state-file"
+			}
+			c.r.Violate(sig, "impl-oracle",
+				fmt.Sprintf("%s of the bridge with cert=%s cut to %d of %d bytes: the start succeeds and presents cert=%s (the persisted identity is silently replaced instead of the start failing)",
+					file, orig, cp.k, len(content), cp.rep.Cert), rc)
 		}
 	}
 }
@@ -1043,7 +1056,8 @@ func (c *checker) roundTrip(rc replayCase) {
 		}
 		gid, gpub, giat, err = parseArgsImpl(map[string]string{"node-id": nh, "public-key": ph, "iat-mode": iat})
 		m = c.call("legacy.dec %s %s", vlib.Hex([]byte(nh)), vlib.Hex([]byte(ph)))
-		if err != nil || !bytes.Equal(gid, id) || !bytes.Equal(gpub, pub) || strconv.Itoa(giat) != rc.IAT {
+		// S speaks about the advertised (lower-case) form only; upper-case hex is a model/implementation matter
+		if !up && (err != nil || !bytes.Equal(gid, id) || !bytes.Equal(gpub, pub) || strconv.Itoa(giat) != rc.IAT) {
 			c.r.Violate("legacy-bridge-line-does-not-round-trip", "impl-oracle",
 				fmt.Sprintf("bridge identity node-id=%s public-key=%s; a client parsing the legacy form node-id=%s public-key=%s obtains node-id=%x public-key=%x err=%v",
 					rc.NodeID, pubH, nh, ph, gid, gpub, err), rc)
